@@ -1272,7 +1272,11 @@ func walkObjectValues(v reflect.Value, fn func(reflect.Value)) {
 		}
 	case jtypes.IsStruct(v):
 		for i, N := 0, v.NumField(); i < N; i++ {
-			fn(v.Field(i))
+			// Skip unexported fields. Their values cannot
+			// be used in the results.
+			if f := v.Field(i); f.CanInterface() {
+				fn(f)
+			}
 		}
 	}
 }
